@@ -101,6 +101,9 @@ class FieldArrayModel(FieldCompositeModel):
         self.product_expr = None
         self.product_expr_btor = None
         
+        self.trim_to_size()
+        
+    def trim_to_size(self):
         if self.is_rand_sz and self.is_scalar:
             # The list was pre-extended to the largest size its bounds 
             # admit. Drop the elements beyond the solved size, so the 
